@@ -23,7 +23,9 @@ def gen_c02(rnd, sid):
                 acts = []
                 for _ in range(rnd.choice([0, 1, 1, 2])):
                     r = rnd.random()
-                    if r < 0.35: acts.append(["raise_err"])
+                    if r < 0.3: acts.append(["raise_err"])
+                    elif r < 0.38: acts.append(["new_loop", "U%d" % rnd.randrange(ncls), 0, sid.next()])
+                    elif r < 0.5: acts += [["close_loop"]] + ([["raise_err"]] if rnd.random() < 0.6 else [])
                     elif r < 0.75: acts.append(["enq", "U%d" % rnd.randrange(ncls), rnd.choice([0, 0, 1, -1]), None, sid.next()])
                     elif r < 0.9: acts.append(["proc", None])
                     else: acts.append(["raise_exit"])
@@ -31,7 +33,8 @@ def gen_c02(rnd, sid):
             handlers.append(dict(cls="U%d" % c, hid=len(handlers), data=rnd.choice([None, 7, 8]), scripts=scripts))
     init = [["enq", "U%d" % rnd.randrange(ncls), rnd.choice([0, 0, 1]), None, sid.next()] for _ in range(rnd.randint(1, 6))]
     return dict(op="machine", mode="c02", width=80, screens=[], handlers=handlers, init=init, stdin=[], quit_cb=None, quit_screen=None,
-                exc_handler=rnd.random() < 0.6, run_empty=True, deliver_at=[])
+                exc_handler=rnd.random() < 0.6, run_empty=True, deliver_at=[],
+                derive=({"U%d" % (ncls - 1): "U0"} if ncls >= 2 and rnd.random() < 0.4 else {}))
 
 
 def generate(rnd, tier):
@@ -73,7 +76,18 @@ def monitor(case, obs):
                 returned = any(e[0][0] == "h<" and e[0][1] == seq[-1] for e in x.x[i:]) or any(e[0][0] == "api" and e[0][1] == "raise_err" for e in x.x[i:])
                 if returned and not any(e[0][0] == "api" and e[0][1] in ("close_loop", "new_loop", "push_modal", "proc", "get_user_input") for e in x.x[:]):
                     return "signal %d reached only handlers %r of %r although handler %d returned and nothing stopped the run" % (sid, seq, exp, seq[-1])
-    # failures: at most one exception signal per ordinary exception; the kill path
+    # an ordinary exception surfaces: after a handler raised, the application's exception handler runs or the process is killed - unless the run was stopped
+    # (exit / force-quit) or cut; counted per raise: the n-th raise is followed by at least n handled exceptions in total by the end of a quiescent run
+    raise_idx = [i for i, ev, ctx in x.events() if ev[0] == "api" and ev[1] == "raise_err" and any(e[0][0] == "H" for e in x.x[:i])]
+    end_depth = next((ctx.get("depth") for ev, ctx in reversed(x.x) if "depth" in ctx), None)
+    if end_depth != 1: raise_idx = []        # blocked inside a nested loop: an exception signal may be held in an enclosing level (C03)
+    if raise_idx and case.get("exc_handler") and obs["outcome"][0] == "blocked" and not any(ev[0] == "api" and ev[1] in ("force_quit", "raise_exit") for i, ev, ctx in x.events()):
+        n_handled = sum(1 for i, ev, ctx in x.events() if ev[0] == "EXC-handled")
+        if n_handled < len(raise_idx):
+            return "%d handlers raised an ordinary exception but only %d exception signals reached the application's handler (the run is quiescent, nothing stopped it)" % (len(raise_idx), n_handled)
+    if raise_idx and not case.get("exc_handler") and obs["outcome"][0] == "blocked" and not any(ev[0] == "api" and ev[1] in ("force_quit", "raise_exit") for i, ev, ctx in x.events()):
+        return "a handler raised an ordinary exception, the application has no ExceptionSignal handler, and the process was not killed"
+    # the kill path
     raises = sum(1 for i, ev, ctx in x.events() if ev[0] == "api" and ev[1] == "raise_err")
     handled = sum(1 for i, ev, ctx in x.events() if ev[0] == "EXC-handled")
     if handled > raises + sum(1 for e in obs["log"] if False):
